@@ -1,10 +1,15 @@
 #!/usr/bin/env python3
 """Copy a sub-agent's output (/tmp/mut2-<ID>/m<i>/{patch.diff,demo.py,notes.md}) into /verif/seeded/<ID>-r2m<i>/ with a meta.json.
-usage: tools/import_round.py <ID> [<ID>...]"""
+usage: tools/import_round.py [--round N] <ID> [<ID>...]     (default round 2: /tmp/mut2-<ID> -> seeded/<ID>-r2m<i>)"""
 import json, os, re, shutil, sys
-for p in sys.argv[1:]:
+args = sys.argv[1:]
+rnd = "2"
+if args and args[0] == "--round":
+    rnd = args[1]
+    args = args[2:]
+for p in args:
     for m in ["m1", "m2", "m3"]:
-        src = f"/tmp/mut2-{p}/{m}"; dst = f"/verif/seeded/{p}-r2{m}"
+        src = f"/tmp/mut{rnd}-{p}/{m}"; dst = f"/verif/seeded/{p}-r{rnd}{m}"
         if not os.path.exists(f"{src}/patch.diff"):
             print("missing", src); continue
         os.makedirs(dst, exist_ok=True)
@@ -13,8 +18,8 @@ for p in sys.argv[1:]:
         notes = open(f"{src}/notes.md").read()
         mm = re.search(r"(?ms)^[-*] \**(?:Needs|Manifests|What it needs|Needs to manifest)[^\n]*(?:\n  [^\n]*)*", notes)
         needs = re.sub(r"\s+", " ", mm.group(0)[2:]).strip() if mm else re.sub(r"\s+", " ", notes)[:400]
-        meta = {"property": p, "id": f"{p}-r2{m}",
-                "origin": "round 2: independent sub-agent given only the property record and a scratch worktree of the repaired tree; asked for second-order / cross-site changes",
+        meta = {"property": p, "id": f"{p}-r{rnd}{m}",
+                "origin": f"round {rnd}: independent sub-agent given only the property record and a scratch worktree of the repaired tree; asked for second-order / cross-site changes",
                 "needs_to_manifest": needs, "ported_to_current_tree": False, "port_note": None}
         json.dump(meta, open(f"{dst}/meta.json", "w"), indent=1)
         print(dst, len(needs))
